@@ -207,6 +207,7 @@ func (fr *Frame) mapUpdate(b *ssa.BasicBlock, x *ssa.MapUpdate, st *State, reach
 	fr.safe("nilmap", reach, sNot(sEq(base.S, bvConst(0, 64))), x.Pos())
 	key := vc.valTerm(fr.get(x.Key))
 	val := vc.valTerm(fr.get(x.Value))
+	fr.frameCheckRef(b, base.S, "true", st, reach, x.Pos(), "mapupdate")
 	vc.mapStore(st, m, base.S, key, val)
 }
 
@@ -306,6 +307,7 @@ func (fr *Frame) builtin(b *ssa.BasicBlock, name string, c *ssa.CallCommon, st *
 	case "delete":
 		m := c.Args[0].Type().Underlying().(*types.Map)
 		alt := st.clone()
+		fr.frameCheckRef(b, args[0].S, sNot(sEq(args[0].S, bvConst(0, 64))), st, reach, pos, "mapdelete")
 		vc.mapDelete(alt, m, args[0].S, vc.valTerm(args[1]))
 		mg := vc.mergeStates([]string{sNot(sEq(args[0].S, bvConst(0, 64)))}, []*State{alt, st})
 		*st = *mg
@@ -380,6 +382,8 @@ func (fr *Frame) appendBuiltin(b *ssa.BasicBlock, c *ssa.CallCommon, args []Val,
 		tarr := vc.def("(Array (_ BitVec 64) "+es+")", "tarr", vc.readCell(st, key, app("g_sarr", t)))
 		srcAt = func(j string) string { return fmt.Sprintf("(select %s (bvadd (g_soff %s) %s))", tarr, t, j) }
 	}
+	// an append that fits the capacity writes the existing backing array
+	fr.frameCheckRef(b, app("g_sarr", s), sAnd(app("bvsgt", tlen, bvConst(0, 64)), app("bvsle", app("bvadd", app("g_slen", s), tlen), app("g_scap", s))), st, reach, pos, "append")
 	return &Val{T: resT, S: vc.appendCore(st, et, s, tlen, srcAt)}
 }
 
@@ -449,6 +453,7 @@ func (fr *Frame) copyBuiltin(b *ssa.BasicBlock, c *ssa.CallCommon, args []Val, s
 		srcAt = func(j string) string { return fmt.Sprintf("(select %s (bvadd (g_soff %s) %s))", sarr, s, j) }
 	}
 	n := vc.def(bvSort(64), "ncopy", sIte(app("bvslt", app("g_slen", d), slen), app("g_slen", d), slen))
+	fr.frameCheckRef(b, app("g_sarr", d), app("bvsgt", n, bvConst(0, 64)), st, reach, pos, "copy")
 	vc.copyInto(st, et, d, n, srcAt)
 	return &Val{T: resT, S: n}
 }
